@@ -2,6 +2,8 @@
 
 The property is a provenance statement; static def-use provenance on MIR
 decides it (up to the scanner's own line counting)."""
+import re
+
 from .lib import hir as H
 from .lib import mir as M
 
@@ -221,11 +223,16 @@ def run(F, R, tier):
     if R.anchor("code::definitions::make", mk):
         ok = False
         det = ""
-        for c in H.calls_to(H.body_of(mk), r"Instructions::new$"):
+        line_ids = [p_["id"] for p_ in mk["hir"]["params"] if p_.get("k") == "bind" and p_.get("name") == "line"]
+        for c in H.calls_to(H.unlet(H.body_of(mk)), r"Instructions::new$"):
             a = c["args"]
             det = H.render(a[1])
-            if a[1].get("k") == "call" and H.last(a[1].get("callee") or "") == "from_elem":
-                ok = H.is_local(a[1]["args"][0], "line") and H.is_local(a[1]["args"][1], "instruction_len")
+            v = H.strip(a[1])
+            if v.get("k") == "call" and H.last(v.get("callee") or "") == "from_elem":
+                n_ = H.render(H.strip(v["args"][1]))
+                # the count is the instruction's length: the running total of 1 + the operand widths, or the byte vector's own length
+                ok = H.local_id(H.strip(v["args"][0])) in line_ids and (n_ in ("instruction_len", "instruction.len()") or
+                                                                         re.fullmatch(r"\(1 \+ def\.operand_widths\.iter\(\)\.sum\(\)\)", n_) is not None)
                 if ok:
                     break
         R.ob("make-replicates-line", "make: lines = [line; instruction_len]", ok, det, F.loc(mk))
